@@ -11,6 +11,9 @@ import (
 func ExpandMsgXmd(msg, dst []byte, lenInBytes int) ([]byte, error) {
 
 	h := sha256.New()
+	if lenInBytes < 0 {
+		return nil, errors.New("invalid lenInBytes")
+	}
 	ell := (lenInBytes + h.Size() - 1) / h.Size() // ceil(len_in_bytes / b_in_bytes)
 	if ell > 255 {
 		return nil, errors.New("invalid lenInBytes")
@@ -59,7 +62,7 @@ func ExpandMsgXmd(msg, dst []byte, lenInBytes int) ([]byte, error) {
 	b1 := h.Sum(nil)
 
 	res := make([]byte, lenInBytes)
-	copy(res[:h.Size()], b1)
+	copy(res[:min(h.Size(), len(res))], b1)
 
 	for i := 2; i <= ell; i++ {
 		// b_i = H(strxor(b₀, b_(i - 1)) ∥ I2OSP(i, 1) ∥ DST_prime)
